@@ -19,7 +19,7 @@ EXPLANATION = (
     "prefix and length-consistency checks (C03.R2), validate-before-decode (C06.R5), assert_complete (C03.R4)."
 )
 ASSUMPTIONS = ["slicing never raises; dict.get returns None on a miss"]
-FLOORS = {"C17.R1": 14, "C17.R2": 6, "C17.R3": 6, "C17.R4": 10, "C17.R5": 1, "C17.R6": 1}
+FLOORS = {"C17.R1": 14, "C17.R2": 6, "C17.R3": 6, "C17.R4": 10, "C17.R5": 1, "C17.R6": 1, "C17.R7": 1}
 
 
 def run(ctx):
@@ -30,6 +30,7 @@ def run(ctx):
     from . import c03, c07
     from .common import reuse
 
+    reuse(ctx, "C17.R7", [c07.r5, c07.r9], "after a reset the new connection is consistent and has its reader: is_connected is set together with the streams and the read loop is scheduled at once (C07.R5, C07.R9)")
     reuse(ctx, "C17.R5", [c07.r2, c07.r3], "after malformed input the reset really re-establishes the connection: reset = disconnect + reconnect, every unsuccessful attempt is retried (C07.R2, C07.R3)")
     reuse(ctx, "C17.R6", [c03.r6], "wrappers hand the sub-decoder the rest of the frame and account for the announced sub-lengths, so bytes beyond the declared lengths make the frame incomplete (rejected) instead of being dropped silently (C03.R6)")
 
@@ -63,6 +64,7 @@ def r1(ctx):
     cm = ctx.repo.module("pyairtouch.comms")
     gd = Fn(ctx.repo, cm, "MessageRegistry.get_decoder")
     ctx.fn(cm, "MessageRegistry.get_decoder")
+    wrappers_refuse_nothing(ctx, R)
     # by role: the fallback is whatever attribute __init__ binds to an UnsupportedMessageDecoder instance
     init = cm.get_class("MessageRegistry").methods["__init__"]
     fb_attr = next((dotted(x.targets[0] if isinstance(x, ast.Assign) else x.target) for x in ast.walk(init) if isinstance(x, (ast.Assign, ast.AnnAssign)) and isinstance(getattr(x, "value", None), ast.Call) and (dotted(x.value.func) or "").split(".")[-1] == "UnsupportedMessageDecoder" and (dotted(x.targets[0] if isinstance(x, ast.Assign) else x.target) or "").startswith("self.")), None)
@@ -134,6 +136,17 @@ def _fallback(ctx, R, f: Fn, lab, lookup, fallback, inlined=False):
             if re and uses and all(g.all_paths_pass(mb.id, [u.id], [n.id for n in re], NONEXC) for u in uses):
                 miss_ok = True
     ctx.check(miss_ok, R, f"{lab}:miss-returns-fallback", m, f.node, f"a miss returns {fallback}; a hit returns the registered decoder", "; ".join(norm_text(n.ast) for n in rets))
+
+
+def wrappers_refuse_nothing(ctx, R):
+    """The 0x1F / 0xC0 wrapper decoders pass every sub-type on (to its decoder or to the unsupported fallback): they raise
+    nothing themselves, so a well-formed frame of an unknown sub-type cannot reset the connection."""
+    for gen, mod, cls in (("at4", "x1F_ext", "ExtendedMessageDecoder"), ("at5", "x1F_ext", "ExtendedMessageDecoder"), ("at5", "xC0_ctrl_status", "ControlStatusDecoder")):
+        m = ctx.repo.module(f"pyairtouch.{gen}.comms.{mod}")
+        ci = m.get_class(cls)
+        ctx.require(ci is not None and "decode" in ci.methods, f"{m.relpath}: {cls}.decode vanished")
+        own = [x for mn in ("decode", "_sub_message_decoder") if mn in ci.methods for x in walk_no_nested(ci.methods[mn]) if isinstance(x, ast.Raise)]
+        ctx.check(not own, R, f"{gen}.{mod}.{cls}:refuses-nothing", m, (own[0] if own else ci.methods["decode"]), "the wrapper decoder raises nothing itself: every sub-type goes to its decoder or to the unsupported fallback", f"`{norm_text(own[0])[:80]}` at line {own[0].lineno}" if own else "")
 
 
 def _unsupported(ctx, R, m, clsname, want_len, want_id):
